@@ -146,16 +146,29 @@ def extract(repo):
                 from .r19_solver_siblings import _coef_sign
                 first = v.args[0].elts[0] if isinstance(v.args[0], (ast.Tuple, ast.List)) and v.args[0].elts else v.args[0]
                 first = ex(first)
-                flip = 1
-                while isinstance(first, ast.UnaryOp) and isinstance(first.op, ast.USub):
-                    flip, first = -flip, first.operand
                 sg = _coef_sign(first)
                 if sg is None:
-                    consts = [x for x in ast.walk(first) if isinstance(x, ast.List) and len(x.elts) == 1]
-                    k = const_num(consts[0].elts[0]) if consts else None
-                    sg = None if not k else (1 if k > 0 else -1)
-                if sg is not None:
-                    coef = float(flip * sg)
+                    raise AnalysisError('R14: sign of the coefficient vector `%s` of block %s not interpreted'
+                                        % (ntext(first)[:50], mask))
+                coef = float(sg)
+                # the selector may be negated where it is stacked under the matrix:  vstack((M, -matrix_lb))
+                for st2 in n.body:
+                    for x in ast.walk(st2):
+                        if isinstance(x, ast.Name) and x.id == tname and isinstance(x.ctx, ast.Load):
+                            par_ = None
+                            for y in ast.walk(st2):
+                                if any(c is x for c in ast.iter_child_nodes(y)):
+                                    par_ = y
+                            if isinstance(par_, ast.UnaryOp) and isinstance(par_.op, ast.USub):
+                                coef = -coef
+                            elif isinstance(par_, (ast.Tuple, ast.List)):
+                                pass
+                            elif isinstance(par_, ast.Call) and ('vstack' in call_name(par_) or
+                                                                 call_name(par_).endswith('csr_matrix')):
+                                pass
+                            else:
+                                raise AnalysisError('R14: selector `%s` of block %s is used in a form the rule '
+                                                    'does not interpret (%s)' % (tname, mask, ntext(par_)[:40]))
                 if mask not in ntext(v):
                     raise AnalysisError('R14: selector matrix of block %s does not use its own mask' % mask)
             elif isinstance(v, ast.Call) and call_name(v) in ('np.concatenate', 'np.append', 'np.hstack',
@@ -251,6 +264,25 @@ def extract(repo):
                 isinstance(n.value, ast.UnaryOp) and isinstance(n.value.op, ast.USub) and \
                 isinstance(n.value.operand, ast.Constant) and n.value.operand.value == 1:
             neg_const = True
+    if not neg_const:
+        # "never negated" is only a conclusion when the vector is a plain copy of the primal objective: any
+        # other construction (np.where(..), a product with a sign vector) may carry the sign change itself
+        def plain(e):
+            if isinstance(e, ast.Call) and isinstance(e.func, ast.Attribute) and \
+                    e.func.attr in ('copy', 'reshape', 'flatten', 'ravel', 'astype', 'squeeze'):
+                return plain(e.func.value)
+            if isinstance(e, ast.Call) and call_name(e) in ('np.array', 'numpy.array', 'np.copy', 'numpy.copy',
+                                                           'np.asarray', 'numpy.asarray') and e.args:
+                return plain(e.args[0])
+            while isinstance(e, ast.Attribute):
+                e = e.value
+            return isinstance(e, ast.Name)
+        defs_ = [n.value for n in ast.walk(mod) if isinstance(n, ast.Assign) and len(n.targets) == 1 and
+                 isinstance(n.targets[0], ast.Name) and n.targets[0].id == cname]
+        if not defs_ or not all(plain(ex(d)) for d in defs_):
+            raise AnalysisError('R14: the dual constant `%s` is built by `%s`, a form in which the rule cannot see '
+                                'whether the entries of the negated rows change sign'
+                                % (cname, '; '.join(ntext(d)[:50] for d in defs_)))
     return fi, masks, blocks, free_mask, neg_mask, neg_const
 
 
